@@ -221,9 +221,10 @@ func continueFrom(c *snapCase, img crashImage, path string, x *vkit.Ctx, desc st
 	// if the on-disk file ends in a partial line (a bufio spill boundary), what
 	// is appended next is glued to it: that is a separate matter (see DESIGN.md),
 	// not what this phase is after
+	partial := false
 	if data := img.Files[path]; len(data) > 0 && data[len(data)-1] != '\n' {
-		x.Label("continue:skipped-partial-last-line")
-		return true
+		partial = true
+		x.Label("continue:file-ends-in-partial-line")
 	}
 	r.fs.load(img.Files)
 	if err := r.openSnap(); err != nil {
@@ -254,6 +255,9 @@ func continueFrom(c *snapCase, img crashImage, path string, x *vkit.Ctx, desc st
 	}
 	got := readSnapshotter(r.snap)
 	sig := "state-wrong-after-crash-restart-continue"
+	if partial {
+		sig = "partial-last-line-glued-to-next-append"
+	}
 	if aliveKey(got.Alive) != aliveKey(r.alive) || got.Clock != uint64(r.lc.Time())-1 || got.Event != r.maxEvent || got.Query != r.maxQuery {
 		x.Violationf(sig, "%s: the node restarted from that crash image (recovering %s/%d/%d/%d), ran on and was restarted cleanly; it now recovers %s/%d/%d/%d, the model says %s/%d/%d/%d; files at the crash: %q",
 			desc, aliveKey(rec.Alive), rec.Clock, rec.Event, rec.Query, aliveKey(got.Alive), got.Clock, got.Event, got.Query,
